@@ -66,9 +66,15 @@ def schema_text(shape, open_content=None):
             open_content[0], WILD[open_content[1]][0], open_content[2] if len(open_content) > 2 else 'lax')
     globs = ''.join('<xs:element name="%s" type="xs:string"%s/>' % (n, ' block=""' if n == 'h' else '') for n in ('a', 'b', 'c', 'h'))
     globs += '<xs:element name="m" type="xs:string" substitutionGroup="h"/>'
-    return ('<xs:schema xmlns:xs="http://www.w3.org/2001/XMLSchema" targetNamespace="%s" xmlns="%s" '
-            'elementFormDefault="qualified" blockDefault="substitution">%s<xs:element name="r"><xs:complexType>%s%s</xs:complexType></xs:element>'
-            '</xs:schema>') % (TNS, TNS, globs, oc, to_xsd(shape))
+    # a transitive member behind an abstract intermediate one: l substitutes h, m2 itself cannot appear
+    globs += '<xs:element name="m2" type="xs:string" abstract="true" block="" substitutionGroup="h"/><xs:element name="l" type="xs:string" substitutionGroup="m2"/>'
+    head = ('<xs:schema xmlns:xs="http://www.w3.org/2001/XMLSchema" targetNamespace="%s" xmlns="%s" '
+            'elementFormDefault="qualified" blockDefault="substitution">%s' % (TNS, TNS, globs))
+    if open_content and len(open_content) > 3 and open_content[3] == 'ext':
+        # the model and its open content sit in a base type; the element's type extends it without adding anything
+        return head + ('<xs:complexType name="BT">%s%s</xs:complexType><xs:element name="r"><xs:complexType><xs:complexContent>'
+                       '<xs:extension base="BT"/></xs:complexContent></xs:complexType></xs:element></xs:schema>') % (oc, to_xsd(shape))
+    return head + '<xs:element name="r"><xs:complexType>%s%s</xs:complexType></xs:element></xs:schema>' % (oc, to_xsd(shape))
 
 
 def nodes_preorder(shape):
@@ -115,7 +121,7 @@ def to_oracle(shape):
     return (k, [to_oracle(c) for c in shape[1]], shape[2], shape[3])
 
 
-SUBST = {q('h'): (q('m'),)}
+SUBST = {q('h'): (q('m'), q('l'))}          # m directly; l through the abstract intermediate member m2
 
 
 def build(shape, version='1.0', validation='lax', open_content=None):
@@ -125,7 +131,7 @@ def build(shape, version='1.0', validation='lax', open_content=None):
     schema = cls(schema_text(shape, open_content), validation=validation)
     schema.maps.cache.enabled = False
     root = schema.elements['r']
-    group = root.type.content
+    group = schema.types['BT'].content if (open_content and len(open_content) > 3) else root.type.content
     parts = particles_preorder(group)
     assert len(parts) == len(nodes_preorder(shape)), (len(parts), len(nodes_preorder(shape)))
     return schema, root, group, parts
